@@ -19,6 +19,13 @@ package c20
 //   TtlMin                    TTL <= A TTL and <= the AAAA negative TTL
 //   NeverAD                   a synthesised or AAAA-filtered reply has AD = 0
 //   PtrBack                   a translated PTR points at the same IPv4 address
+//
+// Rows whose mark is "shedGlobal" / "shedZone" are not scripted: the rest of the
+// chain is the REAL middleware/resolver DNSHandler with every in-flight resolution
+// slot held / the root zone's in-flight quota used up (overlay shim
+// verif_c20_shim.go), so the SERVFAIL and its request-local provenance are what
+// DNSHandler.handle's load-shed branch produces.  The queryer stays armed with a
+// usable A answer: a lost mark ends in an observable synthesis (NeverOverFailure).
 // The model's predicted outcome (kind, rcode, AD, TTL, lookups) is compared
 // for drift accounting only.
 
@@ -32,11 +39,13 @@ import (
 	"strings"
 	"sync"
 	"testing"
+	"time"
 
 	"github.com/miekg/dns"
 	"github.com/semihalev/sdns/config"
 	"github.com/semihalev/sdns/middleware"
 	"github.com/semihalev/sdns/middleware/dns64"
+	"github.com/semihalev/sdns/middleware/resolver"
 	"github.com/semihalev/sdns/verifharness/vh"
 )
 
@@ -147,7 +156,45 @@ type decRun struct {
 	exNets []*net.IPNet
 	mu     sync.Mutex
 	kinds  map[string]int
+	// the real resolver handlers of the load-shed rows, one per shed state (built once, kept in that state)
+	shedOnce sync.Once
+	shed     map[string]*resolver.DNSHandler
+	shedText map[string]string
+	shedErr  error
 }
+
+// shedHandler returns the real resolver handler whose load-shed branch answers rows with the given mark:
+// "shedGlobal" = every in-flight resolution slot is held, "shedZone" = the root zone's in-flight quota is used up
+// while global slots are free.  Nothing is ever dialled in either state (the configured root server is TEST-NET-1
+// and the timeouts are short, so a rig that failed to shed would fail fast and be reported as machinery).
+func (r *decRun) shedHandler(mark string) (*resolver.DNSHandler, string, error) {
+	r.shedOnce.Do(func() {
+		r.shed, r.shedText = map[string]*resolver.DNSHandler{}, map[string]string{}
+		mk := func() *resolver.DNSHandler {
+			cfg := &config.Config{RootServers: []string{"192.0.2.1:53"}, DNSSEC: "off", MaxConcurrentQueries: 8, Maxdepth: 30}
+			cfg.Timeout.Duration = 300 * time.Millisecond
+			cfg.QueryTimeout.Duration = 2 * time.Second
+			return resolver.New(cfg)
+		}
+		g, z := mk(), mk()
+		if n, _ := g.VerifC20HoldResolutionSlots(); n == 0 || g.VerifC20SlotsFree() != 0 {
+			r.shedErr = fmt.Errorf("could not hold the resolver's resolution slots (held %d, free %d)", n, g.VerifC20SlotsFree())
+			return
+		}
+		if n, _ := z.VerifC20HoldZoneQuota(z.VerifC20RootZone()); n == 0 || z.VerifC20SlotsFree() == 0 {
+			r.shedErr = fmt.Errorf("could not use up the root zone's in-flight quota (held %d, free global slots %d)", n, z.VerifC20SlotsFree())
+			return
+		}
+		r.shed["shedGlobal"], r.shed["shedZone"] = g, z
+		r.shedText["shedGlobal"], r.shedText["shedZone"] = resolver.VerifC20ShedTexts()
+	})
+	if r.shedErr != nil {
+		return nil, "", r.shedErr
+	}
+	return r.shed[mark], r.shedText[mark], nil
+}
+
+func isShedMark(m string) bool { return m == "shedGlobal" || m == "shedZone" }
 
 func newDecRun(res *vh.Result, seed int64) *decRun {
 	r := &decRun{res: res, seed: seed, hs: map[handlerKey]*dns64.DNS64{}, pfx: map[string][]*net.IPNet{}, kinds: map[string]int{}}
@@ -321,6 +368,9 @@ func (r *decRun) concretise(c dCase) *concrete {
 		x.edeCode = dns.ExtendedErrorCodeCachedError
 	case "other":
 		x.edeCode = otherEDE[rng.Intn(len(otherEDE))]
+		if isShedMark(c.Down.Mark) {
+			x.edeCode = dns.ExtendedErrorCodeNoReachableAuthority // what the real shed reply carries
+		}
 	}
 	x.preEDE = rng.Intn(3) == 0
 	x.preOtherEDE = (c.Down.Ede == "dnssec" || c.Down.Ede == "cached") && rng.Intn(3) == 0
@@ -574,7 +624,16 @@ func (r *decRun) runCase(c dCase) {
 		return
 	}
 	sc := &script{down: x.downstream, query: x.query}
-	if c.Down.Mark != "none" {
+	shedText := ""
+	switch {
+	case isShedMark(c.Down.Mark):
+		h, text, err := r.shedHandler(c.Down.Mark)
+		if err != nil || h == nil {
+			r.res.Skip("real resolver handler for %s: %v", c.Down.Mark, err)
+			return
+		}
+		sc.real, shedText = h, text
+	case c.Down.Mark != "none":
 		sc.mark = x.mark
 	}
 	req := x.request()
@@ -591,6 +650,31 @@ func (r *decRun) runCase(c dCase) {
 	}
 	q, dn := c.Q, c.Down
 	D := sc.downSnap // nil when PTR translation short-circuits the chain
+	if sc.real != nil {
+		// the row is about the resolver's load-shed reply: make sure that is what the real handler wrote
+		// (SERVFAIL, no records; with EDNS its EDE 22 names the shed sentinel) -- anything else is a dead rig
+		ok := D != nil && D.Rcode == dns.RcodeServerFailure && len(D.Answer) == 0 && len(D.Ns) == 0 && !D.AuthenticatedData
+		if ok && q.Edns == 1 {
+			ok = false
+			if opt := D.IsEdns0(); opt != nil {
+				for _, o := range opt.Option {
+					if e, isEDE := o.(*dns.EDNS0_EDE); isEDE && e.InfoCode == dns.ExtendedErrorCodeNoReachableAuthority && e.ExtraText == shedText {
+						ok = true
+					}
+				}
+			}
+		} else if ok && len(edeCodes(D)) > 0 {
+			ok = false
+		}
+		if !ok {
+			r.res.Skip("case %d: the real resolver handler did not answer from its %s branch:\n%s", c.Idx, dn.Mark, msgText(D))
+			return
+		}
+		r.res.Count("real_"+dn.Mark, 1)
+		if q.Edns == 1 {
+			r.res.Count("real_"+dn.Mark+"_text_seen", 1)
+		}
+	}
 	lookups := len(sc.queries)
 
 	// ---- what the real reply is ------------------------------------
@@ -664,6 +748,10 @@ func (r *decRun) runCase(c dCase) {
 			r.violate(x, "NeverOverFailure", "cached-"+dn.Mark+"-"+dn.Ede, "synthesised over a cached failure", rep, sc)
 		case dn.Mark == "localAttempt" || dn.Mark == "localDeadline":
 			r.violate(x, "NeverOverFailure", dn.Mark, "synthesised over a request-local failure", rep, sc)
+		case isShedMark(dn.Mark):
+			r.violate(x, "NeverOverFailure", dn.Mark, "synthesised over a request-local failure: the resolver refused the AAAA query only because "+
+				map[string]string{"shedGlobal": "every in-flight resolution slot was held", "shedZone": "the zone's in-flight quota was used up"}[dn.Mark]+
+				" at that moment (load shed), and DNS64 answered with AAAA built from the A lookup instead of passing the SERVFAIL through", rep, sc)
 		}
 		// exactness of the synthesised set
 		type src struct {
